@@ -269,9 +269,15 @@ fn hot_reloading_thread(
                     // Take into account every event that was sent before
                     // this request. Requests have priority over events, so
                     // events could otherwise be ignored for as long as
-                    // `hot_reload` is called repeatedly.
-                    for msg in events.try_iter() {
-                        cache.handle_events(msg);
+                    // `hot_reload` is called repeatedly. Only the events
+                    // that are already queued are handled, so that this
+                    // stays a bounded amount of work whatever arrives
+                    // meanwhile.
+                    for _ in 0..events.len() {
+                        match events.try_recv() {
+                            Ok(msg) => cache.handle_events(msg),
+                            Err(_) => break,
+                        }
                     }
 
                     // Safety: The received pointer is guaranteed to
